@@ -7,6 +7,7 @@ with sorted union of unequal indexes, no_conflicts merge, combine_first, sel -> 
 a missing label, ...).  Conformance with the real xarray is checked differentially by
 vf/stubs/conformance.py on every run.
 """
+import numpy as _REAL_NP          # the real library, whatever sys.modules["numpy"] is swapped to later
 import itertools
 
 NAN = float("nan")
@@ -199,6 +200,18 @@ class MiniNP:
             return x._map(fin)
         return fin(x)
 
+    def __getattr__(self, name):
+        # dtype classes and predicates are numpy's own (they only ever see concrete dtype objects here)
+        if name in ("issubdtype", "integer", "floating", "bool_", "number", "complexfloating", "inexact",
+                    "dtype", "float64", "float32", "int64", "str_", "object_", "signedinteger"):
+            return getattr(_REAL_NP, name)
+        raise AttributeError("'MiniNP' object has no attribute %r" % name)
+
+    @staticmethod
+    def unique(x):
+        """sorted unique values of a concrete sequence: numpy's own (its coercions are the point)"""
+        return _REAL_NP.unique(list(x))
+
     @staticmethod
     def iscomplexobj(x):
         def cx(v):
@@ -356,6 +369,10 @@ class DataArray:
         ds._vars[name] = self.copy(deep=True)
         ds._vars[name].name = name
         return ds
+
+    @property
+    def dtype(self):
+        return _dtype_of(self.cells.values())
 
     def isel(self, indexers=None, drop=False, missing_dims="raise", **kw):
         ind = _either(indexers, kw, "isel")
@@ -1029,10 +1046,52 @@ def merge(objs, compat="no_conflicts", join="outer"):
     return out
 
 
+def _dtype_of(values):
+    """numpy dtype of an array holding these Python values"""
+    numpy = _REAL_NP
+
+    vals = list(values)
+    if vals and all(isinstance(v, bool) for v in vals):
+        return numpy.dtype(bool)
+    if vals and all(isinstance(v, int) and not isinstance(v, bool) for v in vals):
+        return numpy.dtype("int64")
+    if vals and all(isinstance(v, str) for v in vals):
+        return numpy.dtype("<U%d" % max(1, max(len(v) for v in vals)))
+    if any(isinstance(v, complex) for v in vals):
+        return numpy.dtype("complex128")
+    return numpy.dtype("float64")
+
+
+def _cast_fill(fill, dtype):
+    """the value an array of `dtype` holds after being filled with `fill` (numpy casting of a NaN fill)"""
+    numpy = _REAL_NP
+
+    if dtype is float:
+        return fill
+    dt = numpy.dtype(dtype)
+    if dt.kind == "f" or dt.kind == "c":
+        return fill
+    if dt.kind == "b":
+        return bool(fill)                 # bool(nan) is True
+    if dt.kind == "U":
+        return str(fill)[:dt.itemsize // 4]          # fixed-width unicode: truncated to the variable's width
+    if dt.kind in "iu":
+        raise ValueError("cannot convert float NaN to integer")
+    return fill
+
+
 def full_like(obj, fill, dtype=None):
+    """dtype None keeps every variable's own dtype (so a NaN fill becomes True in a bool variable, 'nan' in a str
+    variable and an error in an int variable), a single dtype applies to all, a dict gives it per variable"""
+    def one(da, dt):
+        v = _cast_fill(fill, da.dtype if dt is None else dt)
+        return da._map(lambda _: v)
+
     if isinstance(obj, DataArray):
-        return obj._map(lambda v: fill)
-    return obj._map(lambda v: fill)
+        return one(obj, dtype)
+    out = obj.copy(deep=True)
+    out._vars = {n: one(da, dtype.get(n) if isinstance(dtype, dict) else dtype) for n, da in obj._vars.items()}
+    return out
 
 
 class MiniXRModule:
